@@ -90,18 +90,14 @@ func runC01(c *Ctx) {
 	epbPkg := repoPath("proto/endorsement")
 	sl := flow.NewSlicer(c.P)
 
-	var cores, chains []*ssa.Function
-	for _, f := range c.funcsCalling(func(call ssa.CallInstruction) bool { return calleeIs(call, x509CheckSig) }) {
-		if load.RelPkg(f) == "verify" {
-			cores = append(cores, f)
-		}
-	}
+	var chains []*ssa.Function
+	cores, regionOf := c.verifyCores()
 	for _, f := range c.funcsCalling(func(call ssa.CallInstruction) bool { return calleeIs(call, x509Verify) }) {
 		if load.RelPkg(f) == "verify" {
 			chains = append(chains, f)
 		}
 	}
-	c.S.Floor("R1", "verification cores (callers of x509 CheckSignature in package verify)", 1, len(cores))
+	c.S.Floor("R1", "verification cores (exported functions of package verify reaching x509 CheckSignature through unexported helpers)", 1, len(cores))
 	c.S.Floor("R2", "chain-check functions (callers of x509 Verify in package verify)", 1, len(chains))
 	isChain := func(f *ssa.Function) bool {
 		for _, g := range chains {
@@ -129,6 +125,17 @@ func runC01(c *Ctx) {
 	// ---------------- R1 ----------------
 	for _, core := range cores {
 		name := load.FuncName(core)
+		region := regionOf[core]
+		var regionFns []*ssa.Function
+		for g := range region {
+			if !isChain(g) {
+				regionFns = append(regionFns, g)
+			}
+		}
+		sort.Slice(regionFns, func(i, j int) bool { return regionFns[i].Pos() < regionFns[j].Pos() })
+		inRegion := func(f *ssa.Function) bool { return f != nil && region[f] && !isChain(f) }
+		slr := flow.NewSlicer(c.P)
+		slr.LiftParams = 3
 		const (
 			evCC = iota
 			evCS
@@ -142,15 +149,17 @@ func runC01(c *Ctx) {
 		// golden objects: targets of proto.Unmarshal in core
 		var goldens []ssa.Value
 		var unmarshalSrc = map[ssa.Value]ssa.Value{}
-		for _, call := range callsIn(core, func(call ssa.CallInstruction) bool {
-			return calleeIs(call, "google.golang.org/protobuf/proto.Unmarshal") && len(call.Common().Args) == 2 && typeMentions(call.Common().Args[1], epbPkg, "VMGoldenMeasurement")
-		}) {
-			g := unwrapIface(call.Common().Args[1])
-			goldens = append(goldens, g)
-			unmarshalSrc[g] = call.Common().Args[0]
+		for _, rf := range regionFns {
+			for _, call := range callsIn(rf, func(call ssa.CallInstruction) bool {
+				return calleeIs(call, "google.golang.org/protobuf/proto.Unmarshal") && len(call.Common().Args) == 2 && typeMentions(call.Common().Args[1], epbPkg, "VMGoldenMeasurement")
+			}) {
+				g := unwrapIface(call.Common().Args[1])
+				goldens = append(goldens, g)
+				unmarshalSrc[g] = call.Common().Args[0]
+			}
 		}
 		fromGolden := func(v ssa.Value) bool {
-			return sl.Derives(v, func(x ssa.Value) bool {
+			return slr.Derives(v, func(x ssa.Value) bool {
 				for _, g := range goldens {
 					if x == g {
 						return true
@@ -171,7 +180,7 @@ func runC01(c *Ctx) {
 				if calleeIs(call, x509CheckSig) {
 					return evCS, true
 				}
-				if in.Parent() == core {
+				if inRegion(in.Parent()) && !inRegion(f) {
 					if load.FuncInRepo(f) && !flow.IsProtoGetter(f) && !strings.HasPrefix(load.RelPkg(f), "proto/") {
 						for _, a := range call.Common().Args {
 							if namedIs(a.Type(), epbPkg, "VMGoldenMeasurement") || namedIs(a.Type(), epbPkg, "VMSevSnp") || namedIs(a.Type(), epbPkg, "VMTdx") {
@@ -192,7 +201,7 @@ func runC01(c *Ctx) {
 		}
 		reached := map[int]int{}
 		r := &esp.Rule{Name: "C01.R1"}
-		r.Relevant = func(f *ssa.Function) bool { return false } // the core is analysed on its own; callees are events
+		r.Relevant = func(f *ssa.Function) bool { return inRegion(f) && f != core } // unexported helpers of the core are summarised; everything else is an event
 		r.Match = func(in ssa.Instruction) []esp.Ev {
 			id, ok := classify(in)
 			if !ok {
@@ -244,57 +253,83 @@ func runC01(c *Ctx) {
 			c.S.OK("R1", name+":paths", c.pos(core.Pos()), fmt.Sprintf("acceptance only after chain:ok∧signature:ok; %d consumers of golden content all after signature:ok (%d configurations)", reached[evConsume], e.Configs), true)
 		}
 
-		// static operand rules
+		// static operand rules. Operands are access paths; where a call sits in a helper of the
+		// region, the path is lifted through the helper's parameters to the call sites, up to the core.
+		lift := func(v ssa.Value, depth int) []flow.AccessPath { return liftPaths(v, core, regionFns, depth) }
+		all := func(ps []flow.AccessPath, pred func(flow.AccessPath) bool) bool {
+			if len(ps) == 0 {
+				return false
+			}
+			for _, p := range ps {
+				if !pred(p) {
+					return false
+				}
+			}
+			return true
+		}
 		optParam := optionsParam(core)
-		for _, cc := range callsIn(core, func(call ssa.CallInstruction) bool {
-			f := call.Common().StaticCallee()
-			return f != nil && isChain(f)
-		}) {
-			args := cc.Common().Args
-			if len(args) != 3 || optParam == nil {
-				c.S.Unk("R1a", name+":chain-check operands", c.pos(cc.Pos()), "unexpected chain-check signature or no options parameter")
-				continue
-			}
-			okRoots := isFieldOfParam(args[1], optParam, isCertPool)
-			okNow := isFieldOfParam(args[2], optParam, func(t types.Type) bool { return namedIs(t, "time", "Time") })
-			c.S.Check(okRoots, "R1a", name+":roots", c.pos(cc.Pos()), "chain check uses the options parameter's roots of trust", "chain check is not given the caller's roots of trust: "+flow.Describe(args[1]))
-			c.S.Check(okNow, "R1a", name+":time", c.pos(cc.Pos()), "chain check uses the options parameter's verification time", "chain check is not given the caller's verification time: "+flow.Describe(args[2]))
-			// cert bytes: field Cert of a golden object
-			cp := flow.PathOf(args[0])
-			var golden ssa.Value
-			for _, g := range goldens {
-				if cp.Root == g && len(cp.Fields) == 1 && cp.Fields[0] == "Cert" {
-					golden = g
+		nChainCalls := 0
+		for _, rf := range regionFns {
+			for _, cc := range callsIn(rf, func(call ssa.CallInstruction) bool {
+				f := call.Common().StaticCallee()
+				return f != nil && isChain(f)
+			}) {
+				nChainCalls++
+				args := cc.Common().Args
+				if len(args) != 3 || optParam == nil {
+					c.S.Unk("R1a", name+":chain-check operands", c.pos(cc.Pos()), "unexpected chain-check signature or no options parameter on the core")
+					continue
 				}
-			}
-			c.S.Check(golden != nil, "R1b", name+":certificate source", c.pos(cc.Pos()), "certificate is the Cert field of the golden measurement unmarshalled here", "the chain-checked certificate is not the embedded Cert of the unmarshalled golden measurement: "+flow.Describe(args[0]))
-			for _, cs := range callsIn(core, func(call ssa.CallInstruction) bool { return calleeIs(call, x509CheckSig) }) {
-				a := cs.Common().Args
-				// receiver is result 0 of this chain check
-				recvOK := false
-				if ex, ok := a[0].(*ssa.Extract); ok && ex.Tuple == cc.Value() && ex.Index == 0 {
-					recvOK = true
+				fieldOfOpts := func(v ssa.Value, typ func(types.Type) bool) bool {
+					return typ(v.Type()) && all(lift(v, 0), func(p flow.AccessPath) bool { return p.Root == ssa.Value(optParam) && len(p.Fields) == 1 })
 				}
-				c.S.Check(recvOK, "R1b", name+":signing certificate", c.pos(cs.Pos()), "signature checked with the certificate returned by the chain check", "signature is checked with a certificate other than the one returned by the chain check: "+flow.Describe(a[0]))
-				k, isK := a[1].(*ssa.Const)
-				algOK := isK && k.Value != nil && algoConst >= 0 && k.Int64() == algoConst
-				c.S.Check(algOK, "R1b", name+":algorithm", c.pos(cs.Pos()), "algorithm constant is x509.SHA256WithRSAPSS", "signature algorithm operand is not the constant x509.SHA256WithRSAPSS")
-				// message = bytes unmarshalled into golden
-				msgOK := false
-				if golden != nil {
-					mp, sp := flow.PathOf(a[2]), flow.PathOf(unmarshalSrc[golden])
-					msgOK = mp.Equal(sp) && len(mp.Fields) == 1 && mp.Fields[0] == "SerializedUefiGolden"
-					if _, isParam := mp.Root.(*ssa.Parameter); !isParam {
-						msgOK = false
+				okRoots := fieldOfOpts(args[1], isCertPool)
+				okNow := fieldOfOpts(args[2], func(t types.Type) bool { return namedIs(t, "time", "Time") })
+				c.S.Check(okRoots, "R1a", name+":roots", c.pos(cc.Pos()), "chain check uses the options parameter's roots of trust", "chain check is not given the caller's roots of trust: "+flow.Describe(args[1]))
+				c.S.Check(okNow, "R1a", name+":time", c.pos(cc.Pos()), "chain check uses the options parameter's verification time", "chain check is not given the caller's verification time: "+flow.Describe(args[2]))
+				// cert bytes: field Cert of a golden object
+				var golden ssa.Value
+				for _, g := range goldens {
+					if all(lift(args[0], 0), func(p flow.AccessPath) bool { return p.Root == g && len(p.Fields) == 1 && p.Fields[0] == "Cert" }) {
+						golden = g
 					}
 				}
-				c.S.Check(msgOK, "R1b", name+":signed bytes", c.pos(cs.Pos()), "verified message is the stored SerializedUefiGolden field that was unmarshalled (same access path)", "the verified message is not exactly the stored payload bytes that were parsed: "+flow.Describe(a[2]))
-				sp := flow.PathOf(a[3])
-				mp := flow.PathOf(a[2])
-				sigOK := sp.Root == mp.Root && len(sp.Fields) == 1 && sp.Fields[0] == "Signature"
-				c.S.Check(sigOK, "R1b", name+":signature operand", c.pos(cs.Pos()), "signature operand is the endorsement's Signature field", "signature operand is not the endorsement's Signature field: "+flow.Describe(a[3]))
+				c.S.Check(golden != nil, "R1b", name+":certificate source", c.pos(cc.Pos()), "certificate is the Cert field of the golden measurement unmarshalled here", "the chain-checked certificate is not the embedded Cert of the unmarshalled golden measurement: "+flow.Describe(args[0]))
+				for _, rf2 := range regionFns {
+					for _, cs := range callsIn(rf2, func(call ssa.CallInstruction) bool { return calleeIs(call, x509CheckSig) }) {
+						a := cs.Common().Args
+						// receiver is result 0 of this chain check
+						recvOK := all(lift(a[0], 0), func(p flow.AccessPath) bool {
+							ex, ok := p.Root.(*ssa.Extract)
+							return ok && len(p.Fields) == 0 && ex.Tuple == cc.Value() && ex.Index == 0
+						})
+						c.S.Check(recvOK, "R1b", name+":signing certificate", c.pos(cs.Pos()), "signature checked with the certificate returned by the chain check", "signature is checked with a certificate other than the one returned by the chain check: "+flow.Describe(a[0]))
+						k, isK := a[1].(*ssa.Const)
+						algOK := isK && k.Value != nil && algoConst >= 0 && k.Int64() == algoConst
+						c.S.Check(algOK, "R1b", name+":algorithm", c.pos(cs.Pos()), "algorithm constant is x509.SHA256WithRSAPSS", "signature algorithm operand is not the constant x509.SHA256WithRSAPSS")
+						// message = bytes unmarshalled into golden: same access path, rooted at a parameter of the core
+						msgOK := false
+						var msgRoot ssa.Value
+						if golden != nil {
+							srcs := lift(unmarshalSrc[golden], 0)
+							msgOK = all(lift(a[2], 0), func(mp flow.AccessPath) bool {
+								if _, isParam := mp.Root.(*ssa.Parameter); !isParam || len(mp.Fields) != 1 || mp.Fields[0] != "SerializedUefiGolden" {
+									return false
+								}
+								msgRoot = mp.Root
+								return all(srcs, func(sp flow.AccessPath) bool { return sp.Equal(mp) })
+							})
+						}
+						c.S.Check(msgOK, "R1b", name+":signed bytes", c.pos(cs.Pos()), "verified message is the stored SerializedUefiGolden field that was unmarshalled (same access path)", "the verified message is not exactly the stored payload bytes that were parsed: "+flow.Describe(a[2]))
+						sigOK := all(lift(a[3], 0), func(sp flow.AccessPath) bool {
+							return msgRoot != nil && sp.Root == msgRoot && len(sp.Fields) == 1 && sp.Fields[0] == "Signature"
+						})
+						c.S.Check(sigOK, "R1b", name+":signature operand", c.pos(cs.Pos()), "signature operand is the endorsement's Signature field", "signature operand is not the endorsement's Signature field: "+flow.Describe(a[3]))
+					}
+				}
 			}
 		}
+		_ = nChainCalls
 		// no re-serialisation in the core's closure and no store to the payload field in production code
 		nMarshal := 0
 		for f := range c.reachable([]*ssa.Function{core}, nil) {
@@ -833,4 +868,132 @@ func (c *Ctx) flagBoundField(rel, name string) (flow.FieldKey, bool) {
 		}
 	}
 	return flow.FieldKey{}, false
+}
+
+// verifyCores: the verification core is the exported function of package verify
+// from which the x509 signature check is reached through unexported helpers
+// only (so that splitting it into helpers changes nothing); its region is the
+// core plus those helpers.
+func (c *Ctx) verifyCores() (cores []*ssa.Function, regionOf map[*ssa.Function]map[*ssa.Function]bool) {
+	regionOf = map[*ssa.Function]map[*ssa.Function]bool{}
+	var vfuncs []*ssa.Function
+	for _, f := range c.P.RepoFunctions() {
+		if load.RelPkg(f) == "verify" && !c.isTestFunc(f) && f.Blocks != nil {
+			vfuncs = append(vfuncs, f)
+		}
+	}
+	exported := func(f *ssa.Function) bool {
+		return f.Parent() == nil && f.Object() != nil && f.Object().Exported()
+	}
+	callees := func(f *ssa.Function) []*ssa.Function {
+		var out []*ssa.Function
+		for _, call := range callsIn(f, func(ssa.CallInstruction) bool { return true }) {
+			if g := call.Common().StaticCallee(); g != nil && load.RelPkg(g) == "verify" && g.Blocks != nil {
+				out = append(out, g)
+			}
+		}
+		out = append(out, f.AnonFuncs...)
+		return out
+	}
+	for _, f := range vfuncs {
+		if !exported(f) {
+			continue
+		}
+		// region: f + unexported functions reachable without passing through another exported one
+		region := map[*ssa.Function]bool{f: true}
+		stack := []*ssa.Function{f}
+		for len(stack) > 0 {
+			x := stack[len(stack)-1]
+			stack = stack[:len(stack)-1]
+			for _, g := range callees(x) {
+				if region[g] || exported(g) {
+					continue
+				}
+				region[g] = true
+				stack = append(stack, g)
+			}
+		}
+		hasSig := false
+		for g := range region {
+			if len(callsIn(g, func(call ssa.CallInstruction) bool { return calleeIs(call, x509CheckSig) })) > 0 {
+				hasSig = true
+			}
+		}
+		if hasSig {
+			cores = append(cores, f)
+			regionOf[f] = region
+		}
+	}
+	sort.Slice(cores, func(i, j int) bool { return cores[i].Pos() < cores[j].Pos() })
+	return cores, regionOf
+}
+
+// liftPaths: the access path of v; where its root is a parameter of a helper
+// (a function of regionFns other than top), the path is re-rooted at every call
+// site of that helper in the region, recursively up to top.
+func liftPaths(v ssa.Value, top *ssa.Function, regionFns []*ssa.Function, depth int) []flow.AccessPath {
+	ap := flow.PathOf(v)
+	prm, ok := ap.Root.(*ssa.Parameter)
+	if !ok || prm.Parent() == top || depth > 4 {
+		return []flow.AccessPath{ap}
+	}
+	inRegion := false
+	for _, f := range regionFns {
+		if f == prm.Parent() {
+			inRegion = true
+		}
+	}
+	if !inRegion {
+		return []flow.AccessPath{ap}
+	}
+	idx := -1
+	for i, q := range prm.Parent().Params {
+		if q == prm {
+			idx = i
+		}
+	}
+	var out []flow.AccessPath
+	for _, rf := range regionFns {
+		for _, call := range callsIn(rf, func(call ssa.CallInstruction) bool { return call.Common().StaticCallee() == prm.Parent() }) {
+			if idx < 0 || idx >= len(call.Common().Args) {
+				continue
+			}
+			for _, up := range liftPaths(call.Common().Args[idx], top, regionFns, depth+1) {
+				out = append(out, flow.AccessPath{Root: up.Root, Fields: append(append([]string{}, up.Fields...), ap.Fields...)})
+			}
+		}
+	}
+	if len(out) == 0 {
+		return []flow.AccessPath{ap}
+	}
+	return out
+}
+
+// unexportedRegion: top plus the unexported functions of its package reachable
+// from it by static calls without passing through an exported function.
+func unexportedRegion(top *ssa.Function) []*ssa.Function {
+	seen := map[*ssa.Function]bool{top: true}
+	out := []*ssa.Function{top}
+	stack := []*ssa.Function{top}
+	for len(stack) > 0 {
+		x := stack[len(stack)-1]
+		stack = stack[:len(stack)-1]
+		var next []*ssa.Function
+		for _, call := range callsIn(x, func(ssa.CallInstruction) bool { return true }) {
+			if g := call.Common().StaticCallee(); g != nil && g.Blocks != nil && g.Pkg == top.Pkg {
+				next = append(next, g)
+			}
+		}
+		next = append(next, x.AnonFuncs...)
+		for _, g := range next {
+			if seen[g] || (g.Parent() == nil && g.Object() != nil && g.Object().Exported()) {
+				continue
+			}
+			seen[g] = true
+			out = append(out, g)
+			stack = append(stack, g)
+		}
+	}
+	sort.Slice(out, func(i, j int) bool { return out[i].Pos() < out[j].Pos() })
+	return out
 }
